@@ -17,15 +17,16 @@ from . import common, progs
 ID = 'C10'
 LEVEL = 'fault_enumeration'
 TIERS = {
-    'quick': {'cases': 2547 + 1800, 'wall': 110, 'chunk': 12},
-    'thorough': {'cases': 2547 + 60000, 'wall': 1500, 'chunk': 24},
+    'quick': {'cases': 2601 + 1800, 'wall': 110, 'chunk': 12},
+    'thorough': {'cases': 2601 + 60000, 'wall': 1500, 'chunk': 24},
 }
-RULE = ('cases 0..2546: the SINGLE-DAMAGE MATRIX - every alien expression (ill-typed, empty-valued, undefined, not '
+RULE = ('cases 0..2600: the SINGLE-DAMAGE MATRIX - every alien expression (ill-typed, empty-valued, undefined, not '
         'constant, huge) alone in each of 24 small host positions (argument, statement, declaration, condition, array '
         'length, index, try body, stop handler, defeat function, return, operand, ??, !truth_is_defeat, global '
         'initialiser used / unused / const / used in a function, global array length and element, element store, for '
         'step) and every bad statement alone in 9 host contexts, so that one error that slips through the type checker '
-        'reaches the code generator unmasked; every 10th with I/O fault enumeration. Further cases: one seeded source text - random Unicode text, random bytes, token soup, a generated valid '
+        'reaches the code generator unmasked, followed by 54 fixed valid programs that use defeat in exactly one '
+        'unusual place; every 10th with I/O fault enumeration. Further cases: one seeded source text - random Unicode text, random bytes, token soup, a generated valid '
         'program (sequential or time travel), that program mutated at token level (delete / insert / swap / '
         'duplicate / replace tokens), truncated at a token boundary (end-of-file spans), ill-typed by type '
         'and flavour substitution, or ill-typed by tree surgery (alien expressions in place of well-typed ones, '
@@ -154,6 +155,24 @@ def long_token(rnd):
     return f'int g = {tok} * {tok};\nempty @is_you() {{ write(g); sleep({tok}); }}'
 
 
+def flat_chain(rnd):
+    """No nesting in the text, but a deep tree: long left-associative operator chains and else-if chains."""
+    n = rnd.choice((50, 300, 1500, 3000))
+    k = rnd.randrange(5)
+    if k == 0:
+        return 'empty @is_you(int q) { write(' + ' + '.join(['q'] + ['1'] * n) + '); }'
+    if k == 1:
+        return 'empty @is_you(int q) { write(' + ' - '.join(['1'] * n) + '); }'
+    if k == 2:
+        return 'empty @is_you(int q) { if (' + ' and '.join(['q > 0'] * n) + ') { write(1); } }'
+    if k == 3:
+        return 'empty @is_you(int q) {\n' + ''.join(f'if (q == {i}) {{ write({i}); }} else ' for i in range(n // 3)) + '{ write(0); }\n}'
+    return 'empty @is_you(int q) { int[] a = [' + ' * '.join(['q'] * n) + ']; write(a[0]); }'
+
+
+FLAT_FP = 'F15-flat-chain-recursion'
+
+
 def mutate(rnd, toks):
     toks = list(toks)
     for _ in range(rnd.randrange(1, 4)):
@@ -195,6 +214,8 @@ def make_source(rnd):
         return 'nested', nested(rnd)
     if c < 0.20:
         return 'longtoken', long_token(rnd)
+    if c < 0.215:
+        return 'flatchain', flat_chain(rnd)
     k = rnd.random()
     if k < 0.15:
         from .c16 import G16
@@ -340,7 +361,7 @@ _SEVEN = ('func', 'int', 'seven', (), ('block', (('ret', ('int', 7)),)))
 _BOOM = ('func', 'int', '!boom', (), ('block', (('expr', ('call', '!truth_is_defeat', (('bin', '>', ('var', 'later'), ('int', 3)),))), ('ret', ('int', 1)))))
 _YOUFN = ('func', 'int', '@you_fn', (), ('block', (('ret', ('int', 2)),)))
 _LATER = ('decl', 'int', 'later', ('int', 5), False)
-N_MATRIX = 2547     # = len(matrix_jobs()), asserted in case()
+N_MATRIX = 2601     # = len(matrix_jobs()), asserted in case()
 _W1 = ('expr', ('call', 'write', (('int', 1),)))
 
 
@@ -409,6 +430,10 @@ def matrix_jobs():
             jobs.append(('s', hn, k, 1))
             if k:
                 jobs.append(('s', hn, k, 2))
+    # valid programs in which defeat is used in exactly one unusual place (whole-program conditions of the code
+    # generator: no try/stop anywhere, defeat only in a loop clause, code-generation order ...), fixed seeds
+    for k in range(54):
+        jobs.append(('r', k))
     return jobs
 
 
@@ -416,6 +441,11 @@ MATRIX = None
 
 
 def matrix_source(job):
+    if job[0] == 'r':
+        import random
+        from ..gen_tt import rare_shape_program
+        p, _ = rare_shape_program(random.Random(7000 + job[1]))
+        return render.program(p)
     if job[0] == 'e':
         e = (ALIENS + MORE_EXPRS)[job[2]]
         p = E_HOSTS[job[1]](e)
@@ -485,7 +515,7 @@ def api_oracle(text, opts):
                     break
         return out, None, False
     except RecursionError:
-        out.append(('internal-error', 'RecursionError escaped the compiler (nesting depth <= 40)'))
+        out.append(('internal-error', 'RecursionError escaped parse/evaluate/CodeGen/gen_lines'))
     except Exception as e:   # noqa: BLE001
         out.append(('internal-error', f'{type(e).__name__}: {e} escaped parse/evaluate/CodeGen/gen_lines'))
     return out, None, None
@@ -579,6 +609,25 @@ def real_cli(data, opts):
 
 
 def judge(kind, payload, opts, idx, enumerate_faults=True, cross_check=False):
+    if kind.startswith('flatchain'):
+        # these inputs are about the recursion limit: judge them under the interpreter's default limit (the
+        # harness raises it for its own generators), without the subprocess comparison whose stack depth differs
+        old_limit = sys.getrecursionlimit()
+        sys.setrecursionlimit(1000)
+        try:
+            return _judge(kind, payload, opts, idx, False, False)
+        finally:
+            sys.setrecursionlimit(old_limit)
+    return _judge(kind, payload, opts, idx, enumerate_faults, cross_check)
+
+
+def fingerprint_of(kind, cls, detail):
+    if kind.startswith('flatchain') and cls in ('internal-error', 'cli-traceback') and 'RecursionError' in detail:
+        return FLAT_FP
+    return None
+
+
+def _judge(kind, payload, opts, idx, enumerate_faults=True, cross_check=False):
     viol = []
     stats = {'fs_calls': 0, 'fault_points': 0, 'faults': {}}
     if isinstance(payload, bytes):
@@ -689,7 +738,7 @@ def case(seed, idx, tier):
                          'fs_calls': stats['fs_calls'], 'fault_points': stats['fault_points']}
     for cls, detail, extra in viol[:1]:
         res['violations'].append({
-            'cls': cls, 'detail': detail, 'fingerprint': None,
+            'cls': cls, 'detail': detail, 'fingerprint': fingerprint_of(kind, cls, detail),
             'payload': {'kind': kind, 'options': opts, 'data_latin1': raw.decode('latin-1'), 'extra': extra},
             'sample': {'kind': kind, 'options': opts, 'source': raw.decode('utf-8', 'replace')[:800]}})
     return res
@@ -712,4 +761,4 @@ def case_random(rnd, idx):
 def replay(pl):
     data = pl['data_latin1'].encode('latin-1')
     viol, _, _ = judge(pl['kind'], data, pl['options'], 0)
-    return [{'cls': c, 'detail': d, 'fingerprint': None} for c, d, _ in viol]
+    return [{'cls': c, 'detail': d, 'fingerprint': fingerprint_of(pl['kind'], c, d)} for c, d, _ in viol]
